@@ -8,6 +8,10 @@ Line-protocol driver for the `dsl` cluster (C15).
 <text>: `=` then the characters; those outside '!'..'~' and the backslash are written `\HEX;` (code point).
 <uw>  : `-` or comma-separated decimal code points of the non-ASCII characters that
         Python's `\w` matches (data supplied by the harness, see DslLex.lean).
+  m  <text> <uw> <traits>  the traits of the leaf object that the last steps of compile_str(text) fire for
+                           →  fired <name>,<name>,…  (sorted, `-` if none)   or   err ValueError
+        <traits>: comma-separated  name:kind:v_sync:v_m  (kind c = class trait, a = added later — the same
+        to the model); v_* = the value of the metadata `sync` / `m`:  T 1 x (truthy)  F 0 E (falsy)  N A (None / absent)
 A path is its steps joined by `>`; a step is  T:<name>:<notify>:<optional> (NamedTraitObserver),
 L/D/S:<notify>:<optional> (List/Dict/SetItemObserver), M:<name>:<notify> (metadata filter),
 A:<notify> (anytrait filter).  Paths are sorted.
@@ -16,6 +20,7 @@ Run:  lake env lean --run TraitsVerif/Driver/Dsl.lean
 -/
 import TraitsVerif.Driver.Proto
 import TraitsVerif.Model.DslCompile
+import TraitsVerif.Model.DslMatch
 namespace TraitsVerif.Driver.Dsl
 open TraitsVerif TraitsVerif.Model.Dsl TraitsVerif.Proto
 
@@ -93,12 +98,37 @@ def handleEq (uw : Char → Bool) (a b : List Char) : String :=
     | _, _ => s!"eq {b01 (ea == eb)} err"
   | _, _ => "err ValueError"
 
+def metaVal? : String → Option MetaVal
+  | "T" | "1" | "x" => some .truthy
+  | "F" | "0" | "E" => some .falsy
+  | "N" | "A" => some .none
+  | _ => none
+
+def traitInfo? (s : String) : Option TraitInfo :=
+  match s.splitOn ":" with
+  | [n, _kind, vs, vm] => do
+    let a ← metaVal? vs
+    let b ← metaVal? vm
+    pure { name := n.toList, meta' := [("sync".toList, a), ("m".toList, b)] }
+  | _ => none
+
+def handleMatch (uw : Char → Bool) (s : List Char) (ts : List TraitInfo) : String :=
+  match compileChars uw s with
+  | .error e => s!"err {e.name}"
+  | .ok f =>
+    let ns := ((leafTargets f ts).map esc).eraseDups.mergeSort (fun a b => decide (a ≤ b))
+    "fired " ++ (if ns.isEmpty then "-" else ",".intercalate ns)
+
 def handle (line : String) : String :=
   match words line with
   | ["c", t, u] =>
     match unesc t, parseUw u with
     | some s, some uw => showCompile (compileChars uw s)
     | _, _ => "bad-case"
+  | ["m", t, u, spec] =>
+    match unesc t, parseUw u, (spec.splitOn ",").mapM traitInfo? with
+    | some s, some uw, some ts => handleMatch uw s ts
+    | _, _, _ => "bad-case"
   | ["eq", a, b, u, _rel] =>
     match unesc a, unesc b, parseUw u with
     | some a, some b, some uw => handleEq uw a b
